@@ -448,6 +448,9 @@ func Plain(t *testing.T, name string, rule string, body func(t *testing.T, rec *
 	if onlySet != nil && !onlySet[full] {
 		return
 	}
+	if sh := os.Getenv("VERIF_SHARD"); sh != "" && sh != "0" {
+		return // deterministic enumerations run once, in shard 0
+	}
 	rec := &Rec{Sub: full, Rule: rule, nontrivial: map[uint64]struct{}{}, labels: map[string]int64{}, extra: map[string]any{}, lastBeat: time.Now()}
 	emit(outRec{Event: "start", Sub: full})
 	stop := make(chan struct{})
